@@ -2,7 +2,7 @@
 // unit names: s_<f>            scalar overload, inputs = the arguments
 //             v_<f>_<mask>_<L> vector overload; bit k of mask set <=> argument k is a vec<L>, else a scalar
 //             (arguments laid out consecutively: a vector takes L variables, a scalar one)
-// NPARTS 8
+// NPARTS 9
 #include "common.hpp"
 #include <glm/gtx/component_wise.hpp>
 using namespace symt;
@@ -55,6 +55,31 @@ template<int L, class T> struct Arg<L, T, true> { using type = glm::vec<L, T, gl
 #define RELL(F, L) add_unit(nm("rel_" #F, {L}), 2 * L, L, [](auto const* x, auto* o) { using T = TY(o); auto r = glm::F(ldv<L, T>(x), ldv<L, T>(x + L)); for (int i = 0; i < L; ++i) o[i] = T(r[i]); });
 #define REL(F) RELL(F, 1) RELL(F, 2) RELL(F, 3) RELL(F, 4)
 
+// matrix versions (ext/matrix_common, ext/matrix_relational): abs, mix, equal / notEqual (exact and with epsilon) act per element;
+// the relational ones return one bool per COLUMN (all / any over the column).  mix has no decisions and is traced whole.  For the
+// others all elements are computed before any is used, so the joint number of paths is exponential in C*R: they are traced one column at a
+// time ("focus": column i symbolic, every other column the literal 1, whose comparisons fold), and whole for 2x2 (suffix J).
+template<int C, int R, class T> glm::mat<C, R, T, glm::defaultp> ldm_focus(T const* x, int i) {
+  glm::mat<C, R, T, glm::defaultp> m; for (int c = 0; c < C; ++c) for (int r = 0; r < R; ++r) m[c][r] = (c == i) ? x[r] : T(1); return m; }
+template<int C, class T> glm::vec<C, T, glm::defaultp> ldv_focus(T const& e, int i) { glm::vec<C, T, glm::defaultp> v(T(1)); v[i] = e; return v; }
+template<int C, int R> void reg_mat01() {
+  add_unit(nm("mmixs", {C, R}), 2 * C * R + 1, C * R, [](auto const* x, auto* o) { using T = TY(o); stm(o, glm::mix(ldm<C, R, T>(x), ldm<C, R, T>(x + C * R), x[2 * C * R])); });
+  add_unit(nm("mmixm", {C, R}), 3 * C * R, C * R, [](auto const* x, auto* o) { using T = TY(o); stm(o, glm::mix(ldm<C, R, T>(x), ldm<C, R, T>(x + C * R), ldm<C, R, T>(x + 2 * C * R))); });
+  for (int i = 0; i < C; ++i) {
+    add_unit(nm("mabs", {C, R, i}), R, R, [i](auto const* x, auto* o) { using T = TY(o); auto m = glm::abs(ldm_focus<C, R, T>(x, i)); for (int r = 0; r < R; ++r) o[r] = m[i][r]; });
+#define MREL(N, CALL, NIN) add_unit(nm(N, {C, R, i}), NIN, 1, [i](auto const* x, auto* o) { using T = TY(o); symt::MemoScope ms; auto a = ldm_focus<C, R, T>(x, i), b = ldm_focus<C, R, T>(x + R, i); o[0] = T((CALL)[i]); });
+    MREL("mequal", glm::equal(a, b), 2 * R)
+    MREL("mnotEqual", glm::notEqual(a, b), 2 * R)
+    MREL("mequal_e", glm::equal(a, b, x[2 * R]), 2 * R + 1)
+    MREL("mnotEqual_e", glm::notEqual(a, b, x[2 * R]), 2 * R + 1)
+    MREL("mequal_ev", glm::equal(a, b, ldv_focus<C, T>(x[2 * R], i)), 2 * R + 1)
+    MREL("mnotEqual_ev", glm::notEqual(a, b, ldv_focus<C, T>(x[2 * R], i)), 2 * R + 1)
+#undef MREL
+  }
+}
+// whole 2x2 matrices: a (4), b (4), then epsilon (1) or a vec2 of epsilons (2)
+#define MRELJ(N, CALL, NIN) add_unit(N, NIN, 2, [](auto const* x, auto* o) { using T = TY(o); auto a = ldm<2, 2, T>(x), b = ldm<2, 2, T>(x + 4); auto r = CALL; o[0] = T(r[0]); o[1] = T(r[1]); });
+
 int main(int argc, char** argv) {
 #if IN_PART(0)
   F1(abs) F1(sign) F1(floor) F1(trunc) F1(round) F1(ceil) F1(fract)
@@ -89,6 +114,13 @@ int main(int argc, char** argv) {
   add_unit(nm("op_preinc", {L}), L, 2 * L, [](auto const* x, auto* o) { using T = TY(o); auto a = ldv<L, T>(x); auto r = ++a; stv(o, r); stv(o + L, a); }); \
   add_unit(nm("op_postdec", {L}), L, 2 * L, [](auto const* x, auto* o) { using T = TY(o); auto a = ldv<L, T>(x); auto r = a--; stv(o, r); stv(o + L, a); });
   UNL(1) UNL(2) UNL(3) UNL(4)
+#endif
+#if IN_PART(8)
+  add_unit("mabsJ", 4, 4, [](auto const* x, auto* o) { using T = TY(o); stm(o, glm::abs(ldm<2, 2, T>(x))); });
+  MRELJ("mequalJ", glm::equal(a, b), 8) MRELJ("mnotEqualJ", glm::notEqual(a, b), 8)
+  MRELJ("mequalJ_e", glm::equal(a, b, x[8]), 9) MRELJ("mnotEqualJ_e", glm::notEqual(a, b, x[8]), 9)
+  MRELJ("mequalJ_ev", glm::equal(a, b, ldv<2, T>(x + 8)), 10) MRELJ("mnotEqualJ_ev", glm::notEqual(a, b, ldv<2, T>(x + 8)), 10)
+  reg_mat01<2, 2>(); reg_mat01<2, 3>(); reg_mat01<2, 4>(); reg_mat01<3, 2>(); reg_mat01<3, 3>(); reg_mat01<3, 4>(); reg_mat01<4, 2>(); reg_mat01<4, 3>(); reg_mat01<4, 4>();
 #endif
 #if IN_PART(7)
   // ext twins (ext/scalar_common vs ext/vector_common): NaN-aware and n-ary selection, texture-coordinate wraps
